@@ -221,3 +221,32 @@ def c05_mach_column(ctx, n, vacuum):
     ctx.check_eq('atmosphere_asked_at_the_current_altitude', w.atmo_calls[0][0], w.alt0 - w.cc * w.sh)
     if steps >= 2:
         ctx.check('atmosphere_asked_at_the_current_altitude', not ctx.same_term(w.atmo_calls[-1][0], w.atmo_calls[0][0]), info={'what': 'later steps ask at their own altitude'})
+
+
+@harness('C05.mach_column_cut_short', 'C05', allow_cut=['unwind'], cost=4,
+         functions=FUNCS + ['py_ballisticcalc.trajectory_calc._trajectory_calc.TrajectoryCalc._integrate'],
+         engine_opts={'div_check': False, 'nl_axioms_in_feasibility': False},
+         must_reach=['check:terminal_row_mach_is_speed_over_a_speed_of_sound_asked_at_the_projectiles_altitude', 'cut_short'],
+         bounds='one real iteration of _integrate in air from an arbitrary state with symbolic limits, on the paths that END IN A RangeError: the Mach column of the terminal row of the '
+                'partial trajectory is its speed over a speed of sound that the atmosphere answered for alt0 + the height of a state of this trajectory (up to two atmosphere look-ups allowed)',
+         stubs=['atmosphere / drag = arbitrary recorded answers (harness/step.py)'])
+def c05_mach_column_cut_short(ctx):
+    from harness.step import StepWorld
+    w = StepWorld(ctx, limits='symbolic', max_atmo_calls=2, vacuum=False)
+    R = ctx.real('max_range', 0, 1e6)
+    kind, res = w.run(R, rec=1e9)
+    if kind != 'range_error':
+        return
+    ctx.reach('cut_short')
+    rows = res.incomplete_trajectory
+    (_t, pos, vel, speed, a_used) = w.row_args[-1][:5]
+    ctx.check('terminal_row_mach_is_speed_over_a_speed_of_sound_asked_at_the_projectiles_altitude', any(ctx.same_term(a_used, a_k) for (_alt, _rho, a_k) in w.atmo_calls),
+              info={'what': 'the speed of sound used is an answer of the atmosphere', 'calls': len(w.atmo_calls)})
+    ctx.check_eq('terminal_row_mach_is_speed_over_a_speed_of_sound_asked_at_the_projectiles_altitude', rows[-1].mach * a_used, speed, rel=1e-12, info={'what': 'column'})
+    # where the atmosphere was asked: at the muzzle state first; any further look-up at alt0 + the height of the terminal state
+    ctx.check_eq('atmosphere_asked_at_the_current_altitude', w.atmo_calls[0][0], w.alt0 - w.cc * w.sh, info={'call': 0})
+    # one look-up per integration step belongs to the loop (their altitudes are C05.mach_column's subject); a look-up BEYOND those - a
+    # refresh for the terminal row - must be made at alt0 + the height of the terminal state
+    steps = len(w.drag_calls)
+    for k in range(max(steps, 1), len(w.atmo_calls)):
+        ctx.check_eq('atmosphere_asked_at_the_current_altitude', w.atmo_calls[k][0], w.alt0 + pos.y, rel=1e-12, abs=1e-12, info={'call': k, 'steps': steps})
